@@ -111,6 +111,14 @@ def curated_items():
         "t1": T(items=2, next=[dict(when="succeeded", do=["t3"])]),
         "t2": T(items=2, conc=1, next=[dict(when="succeeded", do=["t3"])]),
         "t3": T(join=-1)}, fates={"t1": A, "t2": A, "t3": ["s"]}))
+    out.append(D.wf("items_par_remediated", {
+        "t1": T(items=2, conc=1, next=[dict(when="succeeded", do=["t3"])]),
+        "t2": T(next=[dict(when="failed", do=["noop"]), dict(when="succeeded", do=["t3"])]),
+        "t3": T()}, fates={"t1": ["s"], "t2": A, "t3": ["s"]}))
+    out.append(D.wf("items_par_remediated_task", {
+        "t1": T(items=2, conc=1, next=[dict(when="succeeded", do=["t3"])]),
+        "t2": T(next=[dict(when="failed", do=["t4"]), dict(when="succeeded", do=["t3"])]),
+        "t3": T(), "t4": T()}, fates={"t1": ["s"], "t2": A, "t3": ["s"], "t4": ["s"]}))
     out.append(D.wf("items_retry", {
         "t1": T(items=2, retry={"count": 1}, next=[dict(when="succeeded", do=["t2"])]),
         "t2": T()}, fates={"t1": A, "t2": ["s"]}))
@@ -136,6 +144,12 @@ def curated_retry():
     out.append(D.wf("retry_cmd", {
         "t1": T(next=[dict(when="failed", do=["retry"]), dict(when="succeeded", do=["t2"])]),
         "t2": T()}, fates={"t1": A, "t2": ["s"]}))
+    # a multiply-referenced (split) task with a retry policy: one instance per route, interleaved
+    out.append(D.wf("retry_split", {
+        "t1": T(next=[dict(do=["t2", "t3"])]),
+        "t2": T(next=[dict(do=["t4"])]), "t3": T(next=[dict(do=["t4"])]),
+        "t4": T(retry={"count": 1}, next=[dict(when="succeeded", do=["noop"])])},
+        fates={"t1": ["s"], "t2": ["s"], "t3": ["s"], "t4": A}))
     out.append(D.wf("retry_unhandled", {
         "t1": T(retry={"count": 1}), }, fates={"t1": A}))
     return out
@@ -280,6 +294,19 @@ def curated_ctx():
         "t3": T(next=[dict(pub=[["a", "res"]], do=["t4"])]),
         "t4": T(join=-1, next=[dict(pub=[["b", "ctx:a"]], do=["t5"])]), "t5": T()},
         vars=[["a", 0]], output=[["ob", "ctx:b"]]))
+    out.append(D.wf("independent_join_long", {
+        "t1": T(next=[dict(do=["t2", "t3"])]),
+        "t2": T(next=[dict(pub=[["a", "res"]], do=["t5"])]),
+        "t3": T(next=[dict(pub=[["a", "res"]], do=["t4"])]),
+        "t5": T(next=[dict(do=["t4"])]),
+        "t4": T(join=-1, next=[dict(when="ge:a:3000", pub=[["b", "c:1"]], do=["t6"]), dict(when="lt:a:3000", pub=[["b", "c:2"]], do=["t6"])]),
+        "t6": T()}, vars=[["a", 0]], output=[["ob", "ctx:b"]]))
+    # the output cannot be rendered when the workflow fails, but can after a late completion
+    out.append(D.wf("late_output", {
+        "t1": T(next=[dict(do=["t2", "t3"])]),
+        "t2": T(),
+        "t3": T(next=[dict(pub=[["z", "res"]], do=["t4"])]),
+        "t4": T()}, output=[["oz", "ctx:z"]], fates={"t1": ["s"], "t2": ["s", "f"], "t3": ["s"], "t4": ["s", "f"]}))
     out.append(D.wf("no_leak", {
         "t1": T(next=[dict(when="succeeded", pub=[["x", "res"]], do=["t2"]), dict(when="succeeded", pub=[["y", "res"]], do=["t3"])]),
         "t2": T(next=[dict(pub=[["z", "ctx:x"]], do=["t4"])]),
@@ -296,4 +323,59 @@ def curated_ctx():
         "t2": T(next=[dict(when="ge:x:3", pub=[["z", "ctx:x"]], do=["t3"]), dict(when="lt:x:3", do=["noop"])]),
         "t3": T()}, vars=[["x", 0]], output=[["ox", "ctx:x"], ["oy", "ctx:y"]]))
     out.append(loop_def("loop3", 3))
+    return out
+
+
+FAULT_POSITIONS = ("vars", "action", "input", "items", "conc", "delay", "retry_when", "retry_count", "retry_delay",
+                   "when", "publish", "output")
+
+
+def fault_family(kinds=("undef", "key", "type", "func"), positions=FAULT_POSITIONS):
+    """Host shapes with exactly one failing expression position (DESIGN.md 6 C11)."""
+    A = ["s", "f"]
+    out = []
+    for pos in positions:
+        for kind in kinds:
+            bad = "bad:" + kind
+            t1 = T(next=[dict(when="succeeded", pub=[["x", "res"]], do=["t2", "t3"]), dict(when="failed", do=["noop"])])
+            t2 = T(next=[dict(do=["t4"])])
+            t3 = T(next=[dict(do=["t4"])])
+            t4 = T(join=-1)
+            vars_ = [["x", 0]]
+            output = [["ox", "ctx:x"]]
+            meta = {"pos": pos, "task": "t2"}
+            if pos == "vars":
+                vars_ = [["x", 0], ["w", bad]]
+                meta["task"] = "none"
+            elif pos == "action":
+                t2["actionx"] = bad
+            elif pos == "input":
+                t2["inputx"] = bad
+            elif pos == "items":
+                t2["items"] = 2
+                t2["itemsx"] = bad
+            elif pos == "conc":
+                t2["items"] = 2
+                t2["conc"] = 1
+                t2["concbad"] = kind
+            elif pos == "delay":
+                t2["delay"] = 1
+                t2["delayx"] = bad
+            elif pos == "retry_when":
+                t2["retry"] = {"on": True, "count": 1, "when": bad, "delay": -1}
+            elif pos == "retry_count":
+                t2["retry"] = {"on": True, "count": 1, "when": "default", "delay": -1, "countx": bad}
+            elif pos == "retry_delay":
+                t2["retry"] = {"on": True, "count": 1, "when": "default", "delay": 1, "delayx": bad}
+            elif pos == "when":
+                t2["next"] = [D.tr(when=bad, do=["t4"]), D.tr(when="succeeded", do=["noop"])]
+            elif pos == "publish":
+                t2["next"] = [D.tr(pub=[["y", bad]], do=["t4"])]
+            elif pos == "output":
+                output = [["ox", "ctx:x"], ["oz", bad]]
+                meta["task"] = "none"
+            d = D.wf("fault_%s_%s" % (pos, kind), {"t1": t1, "t2": t2, "t3": t3, "t4": t4}, vars=vars_, output=output,
+                     fates={"t1": A, "t2": A, "t3": A, "t4": ["s"]})
+            d["fault"] = meta
+            out.append(d)
     return out
